@@ -30,6 +30,12 @@ theorem floor_parts (d I i : ℕ) (u dx : ℝ) (hi : i < 2 ^ d) (h0 : 0 ≤ dx) 
   · rw [hfl, Nat.mul_add_mod, Nat.mod_eq_of_lt hi]
   · rw [hfl, hu]; push_cast; ring
 
+theorem u_bounds (N I i dx : ℝ) (hN : 0 < N) (hI0 : 0 ≤ I) (hI : I ≤ 5) (hi0 : 0 ≤ i) (hi : i ≤ N - 1) (h0 : 0 ≤ dx)
+    (h1 : dx < 1) : 0 ≤ N * I + i + dx ∧ N * I + i + dx < 6 * N := by
+  have := mul_le_mul_of_nonneg_left hI hN.le
+  have := mul_nonneg hN.le hI0
+  constructor <;> linarith
+
 /-- **round trip in the plane**: for every valid cell `(b, i, j)` and every position `(dx, dy) ∈ [0, 1)²`, the back end
     of `hash_with_dxdy` applied to the plane point of `sph_coo` returns the number built from `(b, i, j)` and the same
     offsets, for both z-order implementations.  With `dx = dy = 1/2` this is `hash(center) = h` in the plane. -/
@@ -102,12 +108,152 @@ theorem hash_back_coo (cfg : Cfg) (d : ℕ) (c : ZocClass) (hz : Layer.zoc cfg d
   have hJ5 : (J : ℝ) ≤ 5 := by
     have : J ≤ 5 := by omega
     exact_mod_cast this
-  have hu0 : 0 ≤ uOf d (norm8 x') Y := by rw [hu]; positivity
-  have hv0 : 0 ≤ vOf d (norm8 x') Y := by rw [hv]; positivity
-  have hu6 : uOf d (norm8 x') Y < 6 * 2 ^ d := by rw [hu]; nlinarith
-  have hv6 : vOf d (norm8 x') Y < 6 * 2 ^ d := by rw [hv]; nlinarith
+  obtain ⟨hu0, hu6⟩ := u_bounds (2 ^ d) I i dx hp (Nat.cast_nonneg I) hI5 (Nat.cast_nonneg i) hi' hx0 hx1
+  obtain ⟨hv0, hv6⟩ := u_bounds (2 ^ d) J j dy hp (Nat.cast_nonneg J) hJ5 (Nat.cast_nonneg j) hj' hy0 hy1
+  rw [← hu] at hu0 hu6
+  rw [← hv] at hv0 hv6
   rw [hashBack_real cfg d c _ _ hz hd hX0 hu0 hv0 hu6 hv6, fI, fJ, fi, fj, fdx, fdy,
     depth0Bits_normal d 2 I J _ _ hsum3 hsum5, hbase]
   rfl
+
+/-- `hash_with_dxdy` of the projected centre of a cell, in the plane: the same cell, offsets `(1/2, 1/2)` -/
+theorem hash_back_center (cfg : Cfg) (d : ℕ) (c : ZocClass) (hz : Layer.zoc cfg d = some c) (hd : d ≤ 29)
+    (b i j : ℕ) (hb : b < 12) (hi : i < 2 ^ d) (hj : j < 2 ^ d) :
+    hashBack (α := ℝ) cfg d (norm8 (cellCx d b i j), cellCy d b i j)
+      = some ((b <<< (d <<< 1)) ||| Layer.ij2h cfg c i j, 1 / 2, 1 / 2) := by
+  have h := hash_back_coo cfg d c hz hd b i j (1 / 2) (1 / 2) hb hi hj (by norm_num) (by norm_num) (by norm_num)
+    (by norm_num)
+  have e : cooPt d b i j (1 / 2) (1 / 2) = (norm8 (cellCx d b i j), cellCy d b i j) := by
+    unfold cooPt; norm_num
+  rw [e] at h; exact h
+
+/-- **`hash_center_real` in the plane (LUT curve)**: for the cell number `h` built from valid parts `(b, i, j)`,
+    `center_of_projected_cell(h)` succeeds and the back end of `hash_with_dxdy` sends it back to `(h, 1/2, 1/2)`;
+    more generally the plane point of `sph_coo(h, dx, dy)` is sent back to `(h, dx, dy)`. -/
+theorem hash_center_plane (cfg : Cfg) (hbmi : cfg.bmi = false) (d : ℕ) (hd : d ≤ 29) (b i j : ℕ) (hb : b < 12)
+    (hi : i < 2 ^ d) (hj : j < 2 ^ d) :
+    let h := (b <<< (d <<< 1)) ||| interleave i j
+    h < Layer.nHash d ∧ Layer.decodeHash cfg d h = some ⟨b, i, j⟩ ∧
+    (∃ p, centerOfProjectedCell (α := ℝ) cfg d h = some p ∧ hashBack (α := ℝ) cfg d p = some (h, 1 / 2, 1 / 2)) ∧
+    (∀ dx dy : ℝ, 0 ≤ dx → dx < 1 → 0 ≤ dy → dy < 1 →
+      sphCoo (α := ℝ) cfg d h dx dy = unproj (cooPt d b i j dx dy).1 (cooPt d b i j dx dy).2 ∧
+      hashBack (α := ℝ) cfg d (cooPt d b i j dx dy) = some (h, dx, dy)) := by
+  intro h
+  obtain ⟨hdec, hlt⟩ := decode_build cfg hbmi d b i j hd (by omega) hi hj
+  obtain ⟨c, hz, hij⟩ := ij2h_lut cfg hbmi d i j hd hi hj
+  refine ⟨hlt hb, hdec, ⟨_, center_eq cfg d h b i j (hlt hb) hdec hb, ?_⟩, ?_⟩
+  · rw [hash_back_center cfg d c hz hd b i j hb hi hj, hij]
+  · intro dx dy hx0 hx1 hy0 hy1
+    obtain ⟨s1, s2, s3, s4⟩ := sph_coo_plane cfg d h b i j dx dy (hlt hb) hdec hb hi hj hx0 hx1 hy0 hy1
+    obtain ⟨c1, c2, c3, c4, c5⟩ := center_ranges d b i j hb hi hj
+    have hp := pow_pos' d
+    have hdia := abs_diamond_unit dx dy hx0 hx1.le hy0 hy1.le
+    have hh' : |(dx + dy - 1) / 2 ^ d| ≤ 1 / 2 ^ d := by
+      rw [abs_div, abs_of_pos hp, div_le_div_iff_of_pos_right hp, abs_le]; constructor <;> linarith
+    obtain ⟨hh1, hh2⟩ := abs_le.mp hh'
+    refine ⟨?_, ?_⟩
+    · rw [s1, unproj_eq _ _ (by unfold cooPt; simp only; linarith) (by unfold cooPt; simp only; linarith)]
+    · rw [hash_back_coo cfg d c hz hd b i j dx dy hb hi hj hx0 hx1 hy0 hy1, hij]
+
+/-! ## summary on the branches -/
+
+/-- for every point `(X, Y)`, `0 ≤ X < 8`, of the closed diamond of a base cell `b`, the branch index of `depth0_bits`
+    is `k = 5 − (I + J)` with `I + J = 5 − b/4 + [north-east border] + [north-west border] ∈ 3..7`: the branches
+    `k = 3`, `k = 4` and the final `None` are unreachable in exact arithmetic (they exist for rounding errors);
+    `I + J ≥ 6` needs `b < 4` (a border `|X − Xb| = 2 − Y` of a polar-cap triangle, i.e. a seam `lon = k·π/2`) or
+    `b < 8` with both borders (north vertex of an equatorial base cell). -/
+theorem branch_sum (d b : ℕ) (X Y : ℝ) (hb : b < 12) (hX0 : 0 ≤ X) (hX8 : X < 8)
+    (hin : InDiamond (baseX b) (baseY b) 1 X Y) :
+    hbI d X Y + hbJ d X Y + b / 4 = 5 + (if X + Y = baseX b + baseY b + 1 then 1 else 0)
+      + (if Y - X = baseY b - baseX b + 1 then 1 else 0) ∧
+    3 ≤ hbI d X Y + hbJ d X Y ∧ hbI d X Y + hbJ d X Y ≤ 7 ∧
+    (6 ≤ hbI d X Y + hbJ d X Y → b < 8 ∧ 1 ≤ Y ∧ (b < 4 → |X - baseX b| = 2 - Y)) := by
+  obtain ⟨_, eI, eJ⟩ := inBase_branch d b X Y hb hX0 hX8 hin
+  obtain ⟨_, t1, _⟩ := sqOf_table b hb
+  have h4 : b / 4 ≤ 2 := by omega
+  obtain ⟨bY1, bY2⟩ := baseY_cases b hb
+  refine ⟨by rw [eI, eJ]; omega, by rw [eI, eJ]; omega, ?_, ?_⟩
+  · rw [eI, eJ]; split_ifs <;> omega
+  · intro h6
+    rw [eI, eJ] at h6
+    unfold InDiamond at hin
+    have hbY : baseY b = 1 - ((b / 4 : ℕ) : ℝ) := rfl
+    by_cases hne : X + Y = baseX b + baseY b + 1 <;> by_cases hnw : Y - X = baseY b - baseX b + 1 <;>
+      simp only [hne, hnw, if_true, if_false] at h6
+    · -- both borders: the north vertex
+      have hb8 : b < 8 := by omega
+      have hX : X = baseX b := by linarith
+      have hYv : Y = baseY b + 1 := by linarith
+      have hq : (b / 4 = 0 ∨ b / 4 = 1) := by omega
+      refine ⟨hb8, ?_, fun hb4 => ?_⟩
+      · rcases hq with h | h <;> rw [hYv, hbY, h] <;> norm_num
+      · have : b / 4 = 0 := by omega
+        rw [hX, hYv, hbY, this]; norm_num
+    · have hb4 : b < 4 := by omega
+      have h0 : b / 4 = 0 := by omega
+      rw [h0] at hbY
+      have hYb : baseY b = 1 := by rw [hbY]; norm_num
+      rw [hYb] at hin hne
+      have hY1 : 1 ≤ Y := by
+        by_contra hlt
+        have hlt := not_le.mp hlt
+        rw [abs_of_neg (by linarith : Y - 1 < 0)] at hin
+        have := le_abs_self (X - baseX b)
+        linarith
+      refine ⟨by omega, hY1, fun _ => ?_⟩
+      have : X - baseX b = 2 - Y := by linarith
+      rw [this, abs_of_nonneg]
+      rw [abs_of_nonneg (by linarith : (0 : ℝ) ≤ Y - 1)] at hin
+      have := abs_nonneg (X - baseX b)
+      linarith
+    · have hb4 : b < 4 := by omega
+      have h0 : b / 4 = 0 := by omega
+      rw [h0] at hbY
+      have hYb : baseY b = 1 := by rw [hbY]; norm_num
+      rw [hYb] at hin hnw
+      have hY1 : 1 ≤ Y := by
+        by_contra hlt
+        have hlt := not_le.mp hlt
+        rw [abs_of_neg (by linarith : Y - 1 < 0)] at hin
+        have := neg_abs_le (X - baseX b)
+        linarith
+      refine ⟨by omega, hY1, fun _ => ?_⟩
+      have : X - baseX b = -(2 - Y) := by linarith
+      rw [this, abs_neg, abs_of_nonneg]
+      rw [abs_of_nonneg (by linarith : (0 : ℝ) ≤ Y - 1)] at hin
+      have := abs_nonneg (X - baseX b)
+      linarith
+    · omega
+
+/-! ## examples -/
+
+/-- depth 2, cell 73 = `(4, 1, 2)` (centre abscissa `−1/4`, reduced to `7.75`): the round trip holds -/
+example : ∃ p, centerOfProjectedCell (α := ℝ) {} 2 73 = some p ∧ hashBack (α := ℝ) {} 2 p = some (73, 1 / 2, 1 / 2) := by
+  have h := (hash_center_plane {} rfl 2 (by decide) 4 1 2 (by decide) (by decide) (by decide)).2.2.1
+  have e : (4 <<< (2 <<< 1)) ||| interleave 1 2 = 73 := by decide +kernel
+  rw [e] at h; exact h
+
+/-- depth 1, the point `(5/4, 7/4)` of the north-east border of base cell 0 (seam `lon = π/2`): hypotheses of
+    `f11_north_east` hold; the right cell `(0, 1, j)` is returned with `dx = 0` instead of `1` -/
+example : ∃ hash j dy, hashBack (α := ℝ) {} 1 (5 / 4, 7 / 4) = some (hash, 0, dy) ∧
+    Layer.decodeHash {} 1 hash = some ⟨0, 2 ^ 1 - 1, j⟩ ∧
+    cellCx 1 0 (2 ^ 1 - 1) j + (1 - dy) / 2 ^ 1 = 5 / 4 := by
+  have hin : InDiamond (baseX 0) (baseY 0) 1 (5 / 4) (7 / 4) := by
+    unfold InDiamond baseX baseY; norm_num [abs_of_nonneg]
+  obtain ⟨hash, j, dy, h1, _, h2, _, _, _, h3, _⟩ :=
+    f11_north_east {} rfl 1 (by decide) 0 (by decide) (5 / 4) (7 / 4) (by norm_num) (by norm_num) hin
+      (by unfold baseX baseY; norm_num) (by unfold baseX baseY; norm_num)
+  exact ⟨hash, j, dy, h1, h2, h3⟩
+
+/-- the north pole seen from base cell 2, depth 3 -/
+example : ∃ hash, hashBack (α := ℝ) {} 3 (2 * ((2 : ℕ) : ℝ) + 1, 2) = some (hash, 0, 0) ∧
+    Layer.decodeHash {} 3 hash = some ⟨2, 2 ^ 3 - 1, 2 ^ 3 - 1⟩ := by
+  obtain ⟨hash, h1, _, h2, _⟩ := f11_north_pole {} rfl 3 (by decide) 2 (by decide)
+  exact ⟨hash, h1, h2⟩
+
+#print axioms hash_back_coo
+#print axioms hash_back_center
+#print axioms hash_center_plane
+#print axioms branch_sum
 
 end Hpx.CellReal
